@@ -256,7 +256,7 @@ def _w_sprand(case, ctx, rng):
     # a draw of k subscripts out of n cells contains a repeat with probability ~ 1 - exp(-k^2 / 2n); all ten retries must contain one
     # for the (known) short count to occur, which is only plausible when k^2 is not small against n
     ctx.check(S.nnz in accept, via, "WRONG-COUNT", f"{S.nnz} nonzeros, requested {sorted(accept)} ({how}={amount}, {size} cells)",
-              short=bool(S.nnz < min(accept)), repeats_plausible=bool(4 * want_n * want_n > size))
+              short=bool(S.nnz < min(accept)), repeats_plausible=bool(4 * want_n * want_n > size), density_one=bool(how == "density" and amount == 1))
     if via == "from_function" and S.nnz:
         ctx.check(len(drawn) == 1 and np.array_equal(np.asarray(S.vals).reshape(-1), drawn[0].reshape(-1)), via, "WRONG",
                   "values are not the supplied function's output")
